@@ -31,8 +31,8 @@ type vgOp struct {
 	Var     VarSpec `json:"var"`
 	Val     ValSpec `json:"val"`
 	Key     int     `json:"key"`
-	Advance int     `json:"advance_s,omitempty"` // simulated seconds that pass before this operation
-	C       int     `json:"c,omitempty"`         // issuing client (interleaved runs)
+	Advance int     `json:"advance_s,omitempty"`       // simulated seconds that pass before this operation
+	C       int     `json:"c,omitempty"`               // issuing client (interleaved runs)
 	DelayMs int     `json:"signer_delay_ms,omitempty"` // simulated latency of the signing device
 	// Reuse: once the update has been produced the caller changes the object it passed as payload (it prepares
 	// the next update in the same value). The update already handed out is a value of its own.
@@ -145,7 +145,9 @@ func genVgOp(r *R) vgOp {
 			op.Var.Attrs = uint32(r.Intn(0x100))
 		}
 	}
-	switch r.Intn(5) {
+	switch r.Intn(6) {
+	case 3:
+		op.Val = ValSpec{Kind: "randdb", Tag: r.Intn(1 << 24)}
 	case 0:
 		op.Val = ValSpec{Kind: "hashdb", N: 0}
 	case 1:
